@@ -368,6 +368,13 @@ func (env *Env) evalBin(e *Expr) *Val {
 		}
 		return mathBool(t)
 	}
+	if e.Op == "+" {
+		// string concatenation
+		av, bv := env.eval(e.Args[0]), env.eval(e.Args[1])
+		if av.T != nil && bv.T != nil && isStringType(av.T) && isStringType(bv.T) {
+			return scalar(av.T, SCat(av.X, bv.X))
+		}
+	}
 	a := env.intTerm(e.Args[0])
 	b := env.intTerm(e.Args[1])
 	switch e.Op {
